@@ -76,7 +76,12 @@ def classify(prog, fn, head, body):
     r = shrinking_slice(prog, fn, head, body)
     if r:
         return "shrinking-slice", r
-    return None, "no finite iterator, consuming read or shrinking slice dominates the back edge"
+    # (e) counter loops: a test `v < N` (or `v > N`) against a loop-invariant bound lies on every way round the loop and
+    #     v strictly increases (decreases) on every back edge
+    r = counter_loop(prog, fn, head, body)
+    if r:
+        return "counter", r
+    return None, "no finite iterator, consuming read, shrinking slice or bounded counter dominates the back edge"
 
 
 def dominates_backedges(fn, head, body, b):
@@ -104,6 +109,114 @@ def leaves(t, out):
     else:
         out.append(t)
     return out
+
+
+_ENG = {}
+
+
+def _engine(prog):
+    from . import interval
+    if id(prog) not in _ENG:
+        _ENG.clear()
+        _ENG[id(prog)] = interval.Engine(prog)
+    return _ENG[id(prog)]
+
+
+def _strip_widen(t):
+    from . import sym
+    while isinstance(t, tuple) and t and t[0] == "cast" and len(t) == 4 and sym._uwiden(t[2], t[3]):
+        t = t[1]
+    return t
+
+
+def _phis(t, head, acc):
+    if isinstance(t, tuple) and t:
+        if t[0] == "phi" and len(t) == 3 and t[1] == head:
+            acc.add(t)
+        for x in t[1:]:
+            if isinstance(x, tuple):
+                _phis(x, head, acc)
+    return acc
+
+
+def counter_loop(prog, fn, head, body):
+    from . import sym
+    try:
+        an = _engine(prog).analysis(fn.path)
+    except Exception:
+        return None
+    pre = {}
+
+    def grab(bb, st, t):
+        pre[bb] = st
+    an.visit_sites(grab)
+    tails = [tail for (tail, h) in fn.back_edges() if h == head and tail in body]
+    if not tails:
+        return None
+    outs_at_head = []
+    for tail in tails:
+        st = an.entry.get(tail)
+        if st is None:
+            continue        # unreachable back edge
+        for succ, s2 in an.step_block(tail, st):
+            if succ == head:
+                outs_at_head.append(s2)
+    if not outs_at_head:
+        return None
+    for b in sorted(body):
+        t = fn.term(b)
+        if t["t"] != "switch" or t.get("dty") != "bool":
+            continue
+        if not [s for s in fn.succ_map()[b] if s not in body] or not dominates_backedges(fn, head, body, b) or b not in pre:
+            continue
+        st = pre[b]
+        cond = an.operand(st, t["discr"])
+        tgt = {int(v): x for v, x in t["arms"]}
+        cont_true = tgt.get(1, t["otherwise"]) in body
+        cont_false = tgt.get(0, t["otherwise"]) in body
+        if cont_true == cont_false:
+            continue
+        neg = not cont_true
+        while cond[0] == "not":
+            cond, neg = cond[1], not neg
+        want = None      # ('inc'|'dec', counter phi, bound)
+        if cond[0] == "bin" and cond[1] in ("Lt", "Le"):
+            a, bnd = _strip_widen(cond[2]), _strip_widen(cond[3])
+            # continue while a < b (neg: while !(a < b), i.e. b <= a)
+            lo_side, hi_side = (a, bnd) if not neg else (bnd, a)
+            if lo_side[0] == "phi" and lo_side[1] == head and not _phis(hi_side, head, set()):
+                want = ("inc", lo_side, hi_side)
+            elif hi_side[0] == "phi" and hi_side[1] == head and not _phis(lo_side, head, set()):
+                want = ("dec", hi_side, lo_side)
+        elif cond[0] == "in":
+            x = _strip_widen(cond[1])
+            rs = cond[3] if not neg else sym.rs_compl(cond[3], cond[2])
+            lo, hi = sym.ty_range(cond[2])
+            if x[0] == "phi" and x[1] == head and len(rs) == 1:
+                if rs[0][1] == hi and rs[0][0] > lo:
+                    want = ("dec", x, sym.C(rs[0][0], cond[2]))
+                elif rs[0][0] == lo and rs[0][1] < hi:
+                    want = ("inc", x, sym.C(rs[0][1], cond[2]))
+        if want is None:
+            continue
+        kind, phi, bound = want
+        v = phi[2]
+        okk = True
+        for s2 in outs_at_head:
+            nv = s2.val.get(v)
+            step = None
+            if nv is not None and nv[0] == "bin" and nv[1] in ("Add", "Sub") and len(nv) == 5:
+                if nv[1] == "Add" and kind == "inc":
+                    step = nv[3] if nv[2] == phi else (nv[2] if nv[3] == phi else None)
+                elif nv[1] == "Sub" and kind == "dec" and nv[2] == phi:
+                    step = nv[3]
+            if step is None or an.range_of(s2, step)[0] < 1:
+                okk = False
+                break
+        if okk:
+            name = fn.local_name(v) or "_%d" % v
+            return "`%s` strictly %s on every back edge and every iteration first tests it against the loop-invariant bound" % (name, "increases" if kind == "inc" else "decreases")
+    return None
 
 
 def shrinking_slice(prog, fn, head, body):
@@ -170,22 +283,32 @@ def _strict_suffix_or_empty(v, R, ev):
         if inner[0] == "vfld" and inner[2] == "Some":
             call = inner[1]
             if call[0] == "call" and call[1].endswith("::split_at_checked") and call[2][0] == R:
-                return _lower_bound(call[2][1]) >= 1
+                return _lower_bound(call[2][1], R) >= 1
         if inner[0] == "call" and inner[1].endswith("::split_at") and inner[2][0] == R:
-            return _lower_bound(inner[2][1]) >= 1
+            return _lower_bound(inner[2][1], R) >= 1
     return False
 
 
-def _lower_bound(t):
-    """syntactic lower bound of an unsigned term"""
+def _lower_bound(t, R=None):
+    """syntactic lower bound of an unsigned term (R: the loop's slice, known to be non-empty on the way round the loop)"""
     if t[0] == "c" and isinstance(t[1], int):
         return t[1]
+    if t[0] in ("cases", "ite"):
+        return min(_lower_bound(x, R) for x in leaves(t, []))
+    if R is not None and (t == ("len", R) or (t[0] == "call" and t[1].endswith("::len") and t[2] == (R,))):
+        return 1
+    if t[0] == "call" and (t[1].endswith("::min") or t[1] == "core::cmp::min") and len(t[2]) == 2:
+        return min(_lower_bound(t[2][0], R), _lower_bound(t[2][1], R))
+    if t[0] == "cast" and len(t) == 4:
+        from . import sym as _s
+        if _s._uwiden(t[2], t[3]):
+            return _lower_bound(t[1], R)
     if t[0] == "call" and t[1].endswith("::saturating_add"):
-        return max(_lower_bound(t[2][0]), _lower_bound(t[2][1]))
+        return max(_lower_bound(t[2][0], R), _lower_bound(t[2][1], R))
     if t[0] == "bin" and t[1] == "Add":
-        return _lower_bound(t[2]) + _lower_bound(t[3])
+        return _lower_bound(t[2], R) + _lower_bound(t[3], R)
     if t[0] == "call" and t[1].endswith("::max"):
-        return max(_lower_bound(t[2][0]), _lower_bound(t[2][1]))
+        return max(_lower_bound(t[2][0], R), _lower_bound(t[2][1], R))
     return 0
 
 
